@@ -124,7 +124,7 @@ class Ctx:
                   % (self.prop, k["what"], kid, cnt), flush=True)
         wrote = 0
         for sig, v in new:
-            if wrote >= 25:
+            if wrote >= 80:
                 break
             h = hashlib.sha1(sig.encode()).hexdigest()[:12]
             path = os.path.join(REPLAY_DIR, "%s-%s.json" % (self.prop, h))
